@@ -13,14 +13,20 @@ import (
 type Layout struct {
 	Rule   string `json:"rule"` // hash mod range date_year date_month date_day mycat_* global
 	Linked bool   `json:"linked"`
-	Slices int    `json:"slices"`
-	Per    int    `json:"per"`
+	// OwnKey (with Linked): the child table is t3, whose sharding column (uid) is named
+	// differently from the parent's (id / ct); t3 also has a column with the parent's name.
+	OwnKey bool `json:"own_key,omitempty"`
+	Slices int  `json:"slices"`
+	Per    int  `json:"per"`
 }
 
 func (l Layout) String() string {
 	s := l.Rule
 	if l.Linked {
 		s = "linked->" + s
+	}
+	if l.OwnKey {
+		s = "linked(uid)->" + l.Rule
 	}
 	return fmt.Sprintf("%s/%dx%d", s, l.Slices, l.Per)
 }
@@ -49,15 +55,18 @@ type Period struct {
 
 // Built is a layout with its router and the reference placement table.
 type Built struct {
-	Layout   Layout
-	Env      *Env
-	Table    string   // logical table the statements of this layout target: t, t2 or g
-	KeyCol   string   // sharding column of that table ("" for the global table)
-	Locs     []Loc    // physical tables of Table, by position
-	Calendar string   // "", "year", "month", "day"
-	Periods  []Period // configured periods (calendar rules), in order
-	Gap      *Period  // an unconfigured period between two slices (calendar, >=2 slices)
-	RowLimit int      // range rule
+	Layout Layout
+	Env    *Env
+	Table  string // logical table the statements of this layout target: t, t2 or g
+	KeyCol string // sharding column of that table ("" for the global table)
+	// ParentKeyCol (OwnKey layouts): the name of the parent's sharding column, which the
+	// child table has as an ordinary column
+	ParentKeyCol string
+	Locs         []Loc    // physical tables of Table, by position
+	Calendar     string   // "", "year", "month", "day"
+	Periods      []Period // configured periods (calendar rules), in order
+	Gap          *Period  // an unconfigured period between two slices (calendar, >=2 slices)
+	RowLimit     int      // range rule
 }
 
 // N is the number of physical tables.
@@ -103,6 +112,9 @@ func (l Layout) Supported() bool {
 		return false // "invalid padding mod number"
 	}
 	if l.Rule == models.ShardGlobal && l.Linked {
+		return false
+	}
+	if l.OwnKey && !l.Linked {
 		return false
 	}
 	return true
@@ -237,11 +249,12 @@ func Build(l Layout) (*Built, error) {
 		t.Databases = dbList("db_p", n)
 	}
 	t2 := &models.Shard{DB: DB, Table: "t2", Type: models.ShardLinked, Key: key, ParentTable: "t"}
+	t3 := &models.Shard{DB: DB, Table: "t3", Type: models.ShardLinked, Key: "uid", ParentTable: "t"}
 	g := &models.Shard{DB: DB, Table: "g", Type: models.ShardGlobal, Slices: slices, Locations: locations}
 	if l.Per > 1 {
 		g.Databases = dbList("db_g", n)
 	}
-	env, err := NewEnv(Namespace(l.Slices, []*models.Shard{t, t2, g}, nil))
+	env, err := NewEnv(Namespace(l.Slices, []*models.Shard{t, t2, t3, g}, nil))
 	if err != nil {
 		return nil, fmt.Errorf("%v: %v", l, err)
 	}
@@ -257,6 +270,10 @@ func Build(l Layout) (*Built, error) {
 			b.Locs = append(b.Locs, Loc{Index: i, Slice: SliceName(i / l.Per), DB: db, Table: "g"})
 		}
 		return b, nil
+	case l.Linked && l.OwnKey:
+		b.Table = "t3"
+		b.ParentKeyCol = key
+		key = "uid"
 	case l.Linked:
 		b.Table = "t2"
 	default:
